@@ -71,5 +71,6 @@ def intrude(name, n, tiers):
 INSTANCES = [
     intrude('intrude256', 256, ['quick', 'thorough']),
     conc('conc256_ac', 256, 2, ['quick', 'thorough'], defs={'VF_WITH_B': 0, 'VF_A_ALLOCS': 1, 'VF_POST': 0}),
-    seq('seq256_fresh', 256, 0, 0, 2, ['quick', 'thorough'], thorough={'defs': {'VF_N': 256, 'VF_WARM': 0, 'VF_BACK': 0, 'VF_OPS': 8, 'VF_MQ_CAP': 256, 'VF_MAXSLABS': 2}}),
+    seq('seq256_script', 256, 130, 70, 0, ['quick', 'thorough'], timeout=280),
+    seq('seq256_fresh', 256, 0, 0, 2, [], thorough={'defs': {'VF_N': 256, 'VF_WARM': 0, 'VF_BACK': 0, 'VF_OPS': 8, 'VF_MQ_CAP': 256, 'VF_MAXSLABS': 2}}),
 ]
